@@ -1,6 +1,8 @@
 // C10 harness: a history of scan calls on ONE scanner; after every call the same logical scan is
 // replayed on a freshly created scanner with the same settings (reference).
 //   ops=<op>;<op>;...   op = S/<input>/<sched>/<cb>/<stack>/<nofs>   start a scan with a new iterator
+//                            R/<input>/<sched>/<cb>/<stack>/<nofs>   start a scan of another input with the SAME iterator
+//                                                                      object: its last_error is not reset
 //                            C                                         call again with the same iterator (only
 //                                                                      performed if the last call returned BLOCK_NOT_READY)
 // output:  <id> <trace op1>|<trace op2>|... # <reference traces> # leak=<0|1>
@@ -23,7 +25,7 @@ static int parse_ops(const char* f, OP* ops)
     char* p[6] = {0}; int np = splitc(parts[i], '/', p, 6);
     memset(&ops[i], 0, sizeof(OP));
     ops[i].kind = p[0][0];
-    if (ops[i].kind == 'S')
+    if (ops[i].kind == 'S' || ops[i].kind == 'R')
     {
       if (np < 5) DIE("bad op");
       ops[i].in = atoi(p[1]);
@@ -100,11 +102,14 @@ static int do_proc(YR_SCANNER* sc, RUN* r, OP* op)
   return rc;
 }
 
-static int do_call(YR_SCANNER* sc, RUN* r, OP* op, INPUT* ins, int is_start)
+// keep_error >= 0: the caller re-uses its iterator object: everything is re-pointed at the new input but `last_error` keeps the
+// value the previous scan left there (given explicitly for the reference scanner)
+static int do_call(YR_SCANNER* sc, RUN* r, OP* op, INPUT* ins, int is_start, int keep_error)
 {
   if (is_start)
   {
     it_init(&r->it, &r->ic, &ins[op->in], op->sched, sc, op->nofs);
+    if (keep_error >= 0) r->it.last_error = keep_error;
     cb_script(&r->t, op->cb);
     set_stack(op->stk);
   }
@@ -165,7 +170,7 @@ int main(int argc, char** argv)
     int nops = parse_ops(opf, ops);
     char* main_tr[MAXOPS]; char* ref_tr[MAXOPS];
     YR_SCANNER* sc = mk_scanner(rules, flags, timeout, &mainr);
-    int last_start = -1, last_rc = ERROR_SUCCESS;
+    int last_start = -1, last_rc = ERROR_SUCCESS, stale = -1, have_it = 0;
     for (int k = 0; k < nops; k++)
     {
       if (ops[k].kind == 'F')
@@ -177,7 +182,8 @@ int main(int argc, char** argv)
       }
       if (ops[k].kind == 'P')
       {
-        last_rc = do_proc(sc, &mainr, &ops[k]);
+        int prc = do_proc(sc, &mainr, &ops[k]);
+        if (prc != ERROR_COULD_NOT_ATTACH_TO_PROCESS) last_rc = prc;   // a failed attach does not touch the scanner: a suspended scan stays resumable
         main_tr[k] = strdup(mainr.t.buf);
         YR_SCANNER* scp = mk_scanner(rules, flags, timeout, &refr);
         do_proc(scp, &refr, &ops[k]);
@@ -185,24 +191,29 @@ int main(int argc, char** argv)
         yr_scanner_destroy(scp);
         continue;
       }
-      if (ops[k].kind == 'S') last_start = k;
+      if (ops[k].kind == 'S' || ops[k].kind == 'R')
+      {
+        last_start = k;
+        stale = (ops[k].kind == 'R' && have_it) ? mainr.it.last_error : -1;
+        have_it = 1;
+      }
       if (last_start < 0 || (ops[k].kind == 'C' && last_rc != ERROR_BLOCK_NOT_READY))
       {
         main_tr[k] = strdup("skip"); ref_tr[k] = strdup("skip");
         continue;
       }
-      last_rc = do_call(sc, &mainr, &ops[k], ins, ops[k].kind == 'S');
+      last_rc = do_call(sc, &mainr, &ops[k], ins, ops[k].kind != 'C', stale);
       main_tr[k] = strdup(mainr.t.buf);
       // reference: the same logical scan, from its start, on a fresh scanner with the same settings
       YR_SCANNER* sc2 = mk_scanner(rules, flags, timeout, &refr);
       for (int j = last_start; j <= k; j++)
       {
         if (j > last_start && ops[j].kind != 'C') continue;
-        do_call(sc2, &refr, &ops[last_start], ins, j == last_start);
+        do_call(sc2, &refr, &ops[last_start], ins, j == last_start, stale);
       }
       ref_tr[k] = strdup(refr.t.buf);
       yr_scanner_destroy(sc2);
-      if (ops[k].kind == 'S') set_stack(ops[k].stk);
+      if (ops[k].kind != 'C') set_stack(ops[k].stk);
     }
     yr_scanner_destroy(sc);
     set_stack("-");
